@@ -687,7 +687,9 @@ func (service *serviceType) handleBuildRequest(id uint32, request map[string]int
 			Setup: func(build api.PluginBuild) {
 				build.OnStart(func() (api.OnStartResult, error) {
 					activeBuild.mutex.Lock()
-					if currentWaitGroup := activeBuild.rebuildWaitGroup; currentWaitGroup != nil && activeBuild.didGetCancel {
+					// Note: "dispose" sets "activeBuild.ctx" to nil, so it must be read
+					// while the mutex is held and must not be used if it's nil
+					if ctx, currentWaitGroup := activeBuild.ctx, activeBuild.rebuildWaitGroup; ctx != nil && currentWaitGroup != nil && activeBuild.didGetCancel {
 						// Cancel the current build now that the current build is active.
 						// This catches the case where JS does "rebuild()" then "cancel()"
 						// but Go's scheduler runs the original "ctx.Cancel()" goroutine
@@ -703,7 +705,7 @@ func (service *serviceType) handleBuildRequest(id uint32, request map[string]int
 						// some independent future build.
 						activeBuild.rebuildWaitGroup.Add(1)
 						go func() {
-							activeBuild.ctx.Cancel()
+							ctx.Cancel()
 
 							// Lock the mutex because "sync.WaitGroup" isn't thread-safe.
 							// But use the wait group that was active at the time the
